@@ -363,3 +363,11 @@ func vhResultSame(a, b any) bool {
 	}
 	return true // values the harness cannot compare (functions, maps, ...) are not constrained
 }
+
+// vhResetGlobals restores harness and package-level state between native
+// replays (the engine re-runs the package initialiser on every path).
+func vhResetGlobals() {
+	vhAnyLimit, vhVarMax, vhIntCap, vhTruthyWhenZero, vhSymOpBudget = 0, 2, 0, false, 0
+	sLogDefault, cLogDefault = devNull, devNull
+	sLogLevelDefault, cLogLevelDefault = NoLogLevels, NoLogLevels
+}
